@@ -3,6 +3,7 @@
 pass patched), run the /verif checks against it, and store it under /verif/seeded/<ID>-<x>/ with meta.json."""
 import json, os, re, shutil, subprocess, sys, time
 pid, x = sys.argv[1], sys.argv[2]
+dst_label = sys.argv[3] if len(sys.argv) > 3 else x
 wt = f"/tmp/wt/{pid}"
 sd = f"{wt}/SEED/{x}"
 env = dict(os.environ, PYTHONPATH=wt)
@@ -35,13 +36,13 @@ ok = r0.returncode == 0 and r1.returncode != 0 and all(t["rc"] == 0 for t in tes
 print(f"{pid}/{x}: demo clean rc={r0.returncode} patched rc={r1.returncode}; tests {[(t['cmd'], t['rc'], t['tail']) for t in tests]}; caught by {list(checks)}")
 if not ok:
     print("NOT KEPT (does not satisfy the conditions)"); sys.exit(1)
-dst = f"/verif/seeded/{pid}-{x}"
+dst = f"/verif/seeded/{pid}-{dst_label}"
 os.makedirs(dst, exist_ok=True)
 for fn in ("patch.diff", "demo.py", "notes.md"):
     if os.path.exists(f"{sd}/{fn}"):
         shutil.copy(f"{sd}/{fn}", f"{dst}/{fn}")
 notes = open(f"{sd}/notes.md", errors="replace").read() if os.path.exists(f"{sd}/notes.md") else ""
-meta = {"property": pid, "seed": x, "files": files, "needs_to_manifest": notes[:1500],
+meta = {"property": pid, "seed": dst_label, "files": files, "needs_to_manifest": notes[:1500],
         "confirmed": {"demo_on_clean_tree_rc": r0.returncode, "demo_on_patched_tree_rc": r1.returncode, "tests_on_patched_tree": tests,
                       "how": f"scratch worktree {wt} at /repo HEAD {subprocess.run('git -C /repo rev-parse --short HEAD', shell=True, capture_output=True, text=True).stdout.strip()}, PYTHONPATH=worktree"},
         "checks_on_patched_tree": checks, "caught": bool(checks), "caught_by_own_property": pid in checks,
